@@ -1,0 +1,27 @@
+//! Simulation seam. Only compiled with `--cfg passage_verif`; never part of a shipped build.
+//!
+//! `Client::try_default()` hands out the `kube::Client` a simulator injected for this thread (built
+//! over an in-process service) and falls back to the real inferred client when none is set.
+
+use std::cell::RefCell;
+
+thread_local! {
+    static CLIENT: RefCell<Option<kube::Client>> = const { RefCell::new(None) };
+}
+
+/// Installs (or removes) the client handed out on this thread.
+pub fn set_client(client: Option<kube::Client>) {
+    CLIENT.with(|c| *c.borrow_mut() = client);
+}
+
+/// Stand-in for `kube::Client` (only `try_default()` is needed).
+pub struct Client;
+
+impl Client {
+    pub async fn try_default() -> Result<kube::Client, kube::Error> {
+        match CLIENT.with(|c| c.borrow().clone()) {
+            Some(client) => Ok(client),
+            None => kube::Client::try_default().await,
+        }
+    }
+}
